@@ -161,7 +161,7 @@ theorem partOuter_spec (f : α → Bool) :
           (by omega) hfb' hta'
       exact ⟨s', r, e3, c1.trans (swapNat_perm s a b ha hb), c2, by omega, c4, c5⟩
 
-theorem partition_perm_and_split (f : α → Bool) (s : List α) :
+theorem partition_perm_and_split (f : α → Bool) (s : List α) (hl64 : s.length ≤ 9223372036854775807) :
     ∃ (s' : List α) (r : Nat), partition f s = some (s', (r : Int)) ∧ s'.Perm s ∧ r ≤ s.length ∧
       (∀ x ∈ s'.take r, f x = false) ∧ (∀ x ∈ s'.drop r, f x = true) := by
   have hfb0 : FalseBelow f s 0 := by
@@ -192,7 +192,9 @@ theorem partition_perm_and_split (f : α → Bool) (s : List α) :
       rw [List.getElem?_drop] at hp
       exact h2 (r + p) x hp (by omega)
   unfold partition
-  simp only [partI0, partJ0]
+  have hj0 : partJ0 (s.length : Int) = (s.length : Int) - 1 := by
+    unfold partJ0; exact wrap64_of_range (by omega) (by omega)   -- `len(s) - 1` is exact
+  simp only [partI0, hj0]
   rw [e]
   simp only [getI_nat, partFinal]
   by_cases hn : n < s.length
